@@ -43,6 +43,7 @@ TRUSTED = [
 ASSUMPTIONS = ["positions and the original spelling of identifiers are ignored in the comparison (they are C05's and C08's subject)"]
 
 KNOWN_STRUCT_INIT = "structure-initialization-type-declaration-base-dropped"
+KNOWN_SUBRANGE_DEFAULT = "subrange-default-in-structure-element-dropped"
 
 
 def compare(expected, r):
@@ -63,6 +64,17 @@ def strip_base(v):
         if isinstance(body, dict):
             return (name, {k: strip_base(x) for k, x in body.items() if not (name == "StructureInitializationDeclaration" and k == "base_type_name")})
         return (name, [strip_base(x) for x in body])
+    return v
+
+
+def strip_default(v):
+    if isinstance(v, list):
+        return [strip_default(x) for x in v]
+    if isinstance(v, tuple):
+        name, body = v
+        if isinstance(body, dict):
+            return (name, {k: strip_default(x) for k, x in body.items() if not (name == "StructureElementDeclaration" and k == "default")})
+        return (name, [strip_default(x) for x in body])
     return v
 
 
@@ -95,6 +107,10 @@ def search(run, info):
         run.count(text, True, "%s:%s" % (t, "canonical" if si == 0 else "respelled"))
         fam[t] = fam.get(t, 0) + 1
         d = compare(tree, r)
+        if d and KNOWN_SUBRANGE_DEFAULT in known and KNOWN_SUBRANGE_DEFAULT in known_keys and "StructureElementDeclaration: fields ['default'" in d:
+            run.known_finding(KNOWN_SUBRANGE_DEFAULT, "the default of a subrange structure element (m : UINT (0..3) := 1;) is not kept in the library")
+            tree = strip_default(tree)
+            d = compare(tree, r)
         if d:
             if KNOWN_STRUCT_INIT in known and KNOWN_STRUCT_INIT in known_keys and "StructureInitializationDeclaration: fields ['base_type_name'" in d:
                 run.known_finding(KNOWN_STRUCT_INIT, "the base type of a structure-initialization type declaration (T : Base := (a := 1);) is not kept in the library")
